@@ -196,6 +196,21 @@ let dictowner id mode ops =
     (match o with DUse _ -> (match r with DNull -> "=none" | DLocal h -> (if ok then "=L" else "=FREED:L") ^ string_of_int (int_of_n h) | DExt d -> "=E" ^ string_of_int (int_of_n d)) | _ -> "") ^ ";" in
   Printf.printf "O %s %s\n" id (String.concat "" (List.map show (List.combine tr ops)))
 
+let legacywalk id hx =
+  let b = bytes_of_hex hx in
+  let v = match b with x :: _ -> (match int_of_n x with 37 -> Some V5 | 38 -> Some V6 | 39 -> Some V7 | _ -> None) | [] -> None in
+  match v with
+  | None -> Printf.printf "LW %s NA\n" id
+  | Some v ->
+    (match walk v b with
+     | WOk (cs, bd, bl) -> Printf.printf "LW %s OK cs=%d bound=%d blocks=%d\n" id (int_of_n cs) (int_of_n bd) (List.length bl)
+     | WErr e -> Printf.printf "LW %s ERR %s\n" id (match e with WSrcSize -> "srcSize" | WPrefix -> "prefix" | WFuel -> "fuel"))
+
+let skipsize id u n cap =
+  let ni s = n_of_int (int_of_string s) in
+  let sh = function SErr -> "E" | SOk x -> string_of_int (int_of_n x) in
+  Printf.printf "SK %s size=%s read=%s\n" id (sh (skip_size (n_of_int 64) true (ni u) (ni n))) (sh (read_skip (n_of_int 64) true (ni u) (ni n) (ni cap)))
+
 let unit_huf id hx =
   match read_huf_weights (n_of_int 12) (bytes_of_hex hx) with
   | Ok ((ws, log), used) ->
@@ -223,6 +238,8 @@ let () =
        | ["C"; id; mode; ops] -> continuity id mode ops
        | ["T"; id; mode; ctx; ops] -> ctxptrs id mode ctx ops
        | ["O"; id; mode; ops] -> dictowner id mode ops
+       | ["LW"; id; hx] -> legacywalk id hx
+       | ["SK"; id; u; n; cap] -> skipsize id u n cap
        | ["UH"; id; hx] -> unit_huf id hx
        | ["UN"; id; msv; hx] -> unit_ncount id msv hx
        | _ -> if line <> "" then Printf.printf "? BADLINE\n");
